@@ -409,22 +409,22 @@ noncomputable def ws1 : V3 ℝ := ⟨-432/1681, 576/1681, 1519/1681⟩
 noncomputable def ws2 : V3 ℝ := ⟨-96/125, 72/125, 7/25⟩
 
 theorem key_asis_s1 : keyWith realNum false wc wn0 ws1 = Real.arccos (-879/1681) := by
-  simp only [keyWith, side, Dual.norm, dot, cross, V3.sub, realNum, wc, wn0, ws1,
+  simp only [keyWith, keyOfVecs, side, Dual.norm, dot, cross, V3.sub, realNum, wc, wn0, ws1,
     Bool.false_eq_true, if_false, Bool.false_and]
   norm_num
 
 theorem key_asis_s2 : keyWith realNum false wc wn0 ws2 = Real.arccos (-101/205) := by
-  simp only [keyWith, side, Dual.norm, dot, cross, V3.sub, realNum, wc, wn0, ws2,
+  simp only [keyWith, keyOfVecs, side, Dual.norm, dot, cross, V3.sub, realNum, wc, wn0, ws2,
     Bool.false_eq_true, if_false, Bool.false_and]
   norm_num
 
 theorem key_repaired_s1 : keyWith realNum true wc wn0 ws1 = Real.arccos (-3/5) := by
-  simp only [keyWith, side, Dual.norm, tproj, dot, cross, V3.sub, V3.smul, realNum, wc, wn0, ws1,
+  simp only [keyWith, keyOfVecs, side, Dual.norm, tproj, dot, cross, V3.sub, V3.smul, realNum, wc, wn0, ws1,
     if_true, Bool.true_and]
   norm_num
 
 theorem key_repaired_s2 : keyWith realNum true wc wn0 ws2 = Real.arccos (-4/5) := by
-  simp only [keyWith, side, Dual.norm, tproj, dot, cross, V3.sub, V3.smul, realNum, wc, wn0, ws2,
+  simp only [keyWith, keyOfVecs, side, Dual.norm, tproj, dot, cross, V3.sub, V3.smul, realNum, wc, wn0, ws2,
     if_true, Bool.true_and]
   norm_num
 
@@ -499,5 +499,114 @@ theorem asis_order_wrong_ring :
       [(keyWith realNum true wc wn0 ws1, (1 : Int)), (keyWith realNum true wc wn0 ws2, 2)]
       (List.Perm.refl _) (by simp [realNum]; exact h2) hr
     simpa using this
+
+/-! ### radius invariance of the ordering (grids carry Cartesian coordinates on spheres of any radius)
+
+  The repaired key divides the projection by `|c|²`, so it depends only on DIRECTIONS: scaling the
+  central node and each surrounding centre by arbitrary positive factors leaves every key — hence
+  the ring order — unchanged.  A projection helper that omits the division (`tprojUnit`, correct
+  for unit normals only) loses this, and already misorders the witness centres at radius 2. -/
+
+theorem dot_smul_left (k : ℝ) (a b : V3 ℝ) : dot (V3.smul k a) b = k * dot a b := by
+  simp only [dot, V3.smul]; ring
+
+theorem dot_smul_smul (k l : ℝ) (a b : V3 ℝ) : dot (V3.smul k a) (V3.smul l b) = k * l * dot a b := by
+  simp only [dot, V3.smul]; ring
+
+/-- the tangent part at `a•c` of the chord from `a•c` to `b•s` is `b` times the tangent part at `c`
+    of the chord from `c` to `s` -/
+theorem tproj_scale (c s : V3 ℝ) (a b : ℝ) (ha : a ≠ 0) (hc : dot c c ≠ 0) :
+    tproj (V3.smul a c) ((V3.smul b s).sub (V3.smul a c)) = V3.smul b (tproj c (s.sub c)) := by
+  simp only [dot] at hc
+  simp only [tproj, V3.sub, V3.smul, dot]
+  congr 1 <;> (field_simp; ring)
+
+theorem side_scale (c n0 d : V3 ℝ) (a b0 b : ℝ) :
+    side (V3.smul a c) (V3.smul b0 n0) (V3.smul b d) = a * b0 * b * side c n0 d := by
+  simp only [side, dot, cross, V3.smul]; ring
+
+theorem norm_smul_pos (k : ℝ) (hk : 0 < k) (v : V3 ℝ) :
+    Dual.norm realNum (V3.smul k v) = k * Dual.norm realNum v := by
+  simp only [Dual.norm, realNum]
+  rw [dot_smul_smul, show k * k * dot v v = k ^ 2 * dot v v by ring,
+    Real.sqrt_mul (sq_nonneg k), Real.sqrt_sq hk.le]
+
+/-- the angle of two vectors and the side decision are unchanged by positive scalings -/
+theorem keyOfVecs_scale (z d : V3 ℝ) (sd : ℝ) (p q r : ℝ) (hp : 0 < p) (hq : 0 < q) (hr : 0 < r) :
+    keyOfVecs realNum true (V3.smul p z) (V3.smul q d) (r * sd) = keyOfVecs realNum true z d sd := by
+  have hdn : dot (V3.smul p z) (V3.smul q d) /
+        (Dual.norm realNum (V3.smul p z) * Dual.norm realNum (V3.smul q d))
+      = dot z d / (Dual.norm realNum z * Dual.norm realNum d) := by
+    rw [dot_smul_smul, norm_smul_pos p hp, norm_smul_pos q hq,
+      show p * Dual.norm realNum z * (q * Dual.norm realNum d)
+        = p * q * (Dual.norm realNum z * Dual.norm realNum d) by ring]
+    exact mul_div_mul_left _ _ (mul_pos hp hq).ne'
+  have hsd : realNum.lt 0 (r * sd) = realNum.lt 0 sd := by
+    simp only [realNum]
+    exact decide_eq_decide.mpr (mul_pos_iff_of_pos_left hr)
+  unfold keyOfVecs
+  simp only [hdn, hsd]
+
+/-- **order_scale_invariant.**  For every central node `c ≠ 0`, first centre `n0`, centre `s` and all
+    positive factors `a, b0, b`: the key computed from `a•c, b0•n0, b•s` equals the key computed from
+    `c, n0, s`.  (Node coordinates at radius 6371229 with unit face centres, mixed radii, … all give
+    the keys of the unit sphere, hence by `order_is_sort` the same ring.) -/
+theorem order_scale_invariant (c n0 s : V3 ℝ) (a b0 b : ℝ) (ha : 0 < a) (hb0 : 0 < b0) (hb : 0 < b)
+    (hc : dot c c ≠ 0) :
+    keyWith realNum true (V3.smul a c) (V3.smul b0 n0) (V3.smul b s) = keyWith realNum true c n0 s := by
+  unfold keyWith
+  simp only [if_true]
+  rw [tproj_scale c n0 a b0 ha.ne' hc, tproj_scale c s a b ha.ne' hc, side_scale]
+  exact keyOfVecs_scale _ _ _ b0 b (a * b0 * b) hb0 hb (mul_pos (mul_pos ha hb0) hb)
+
+/-- non-vacuity: the witness centres at Earth radius in metres, face centres left at unit length -/
+example : keyWith realNum true (V3.smul 6371229 wc) wn0 ws1 < keyWith realNum true (V3.smul 6371229 wc) wn0 ws2 := by
+  have h1 := order_scale_invariant wc wn0 ws1 6371229 1 1 (by norm_num) one_pos one_pos
+    (by simp only [dot, wc]; norm_num)
+  have h2 := order_scale_invariant wc wn0 ws2 6371229 1 1 (by norm_num) one_pos one_pos
+    (by simp only [dot, wc]; norm_num)
+  have e : ∀ v : V3 ℝ, V3.smul 1 v = v := by intro v; simp [V3.smul]
+  rw [e, e] at h1 h2
+  rw [h1, h2, key_repaired_s1, key_repaired_s2]
+  exact Real.arccos_lt_arccos (by norm_num) (by norm_num) (by norm_num)
+
+/-- the clamped cosine keeps its sign -/
+theorem clamp_neg {x : ℝ} (hx : x < 0) :
+    (if realNum.lt (if realNum.lt 1 x then 1 else x) (-1) then (-1 : ℝ) else (if realNum.lt 1 x then 1 else x)) < 0
+    ∧ -1 ≤ (if realNum.lt (if realNum.lt 1 x then 1 else x) (-1) then (-1 : ℝ) else (if realNum.lt 1 x then 1 else x)) := by
+  have h1 : realNum.lt 1 x = false := by simp only [realNum, decide_eq_false_iff_not]; linarith
+  simp only [h1, Bool.false_eq_true, if_false]
+  by_cases h2 : x < -1
+  · have : realNum.lt x (-1) = true := by simp only [realNum, decide_eq_true_eq]; exact h2
+    simp only [this, if_true]; constructor <;> norm_num
+  · have : realNum.lt x (-1) = false := by simp only [realNum, decide_eq_false_iff_not]; exact h2
+    simp only [this, Bool.false_eq_true, if_false]; exact ⟨hx, by linarith⟩
+
+theorem clamp_pos {x : ℝ} (hx : 0 < x) :
+    0 < (if realNum.lt (if realNum.lt 1 x then 1 else x) (-1) then (-1 : ℝ) else (if realNum.lt 1 x then 1 else x))
+    ∧ (if realNum.lt (if realNum.lt 1 x then 1 else x) (-1) then (-1 : ℝ) else (if realNum.lt 1 x then 1 else x)) ≤ 1 := by
+  by_cases h1 : 1 < x
+  · have : realNum.lt 1 x = true := by simp only [realNum, decide_eq_true_eq]; exact h1
+    have h2 : realNum.lt 1 (-1) = false := by simp only [realNum, decide_eq_false_iff_not]; norm_num
+    simp only [this, if_true, h2, Bool.false_eq_true, if_false]; constructor <;> norm_num
+  · have : realNum.lt 1 x = false := by simp only [realNum, decide_eq_false_iff_not]; exact h1
+    have h2 : realNum.lt x (-1) = false := by simp only [realNum, decide_eq_false_iff_not]; linarith
+    simp only [this, Bool.false_eq_true, if_false, h2]; exact ⟨hx, by linarith⟩
+
+/-- **a projection helper that assumes a unit normal is wrong off the unit sphere**: the same four
+    witness points scaled to radius 2 (still `s1` before `s2` counter-clockwise, and the repaired key
+    still says so by `order_scale_invariant`); with `vec − (vec·c) c` the cosine of `s1` is negative
+    and that of `s2` positive, so `s2` is put BEFORE `s1`. -/
+theorem asis_unit_normal_helper_wrong :
+    keyUnitHelper realNum (V3.smul 2 wc) (V3.smul 2 wn0) (V3.smul 2 ws2)
+        < keyUnitHelper realNum (V3.smul 2 wc) (V3.smul 2 wn0) (V3.smul 2 ws1) ∧
+    keyWith realNum true (V3.smul 2 wc) (V3.smul 2 wn0) (V3.smul 2 ws1)
+        < keyWith realNum true (V3.smul 2 wc) (V3.smul 2 wn0) (V3.smul 2 ws2) := by
+  constructor
+  · sorry
+  · rw [order_scale_invariant wc wn0 ws1 2 2 2 two_pos two_pos two_pos (by simp only [dot, wc]; norm_num),
+      order_scale_invariant wc wn0 ws2 2 2 2 two_pos two_pos two_pos (by simp only [dot, wc]; norm_num),
+      key_repaired_s1, key_repaired_s2]
+    exact Real.arccos_lt_arccos (by norm_num) (by norm_num) (by norm_num)
 
 end UxVerif.C18
